@@ -68,6 +68,8 @@ def physics(quick):
         dict(name="fixed", dev="bar", opts=dict(dt_init=1e-2, adaptive=False), kw=dict(applied_vector_potential=0.4, terminal_currents={"source": 3.0, "drain": -3.0})),
         dict(name="adaptive", dev="bar_hole", opts=dict(dt_init=1e-3, dt_max=4e-2, adaptive=True, adaptive_window=2), kw=dict(applied_vector_potential=0.7, terminal_currents={"source": 5.0, "drain": -5.0})),
     ]
+    # an averaging window longer than some of the save intervals (and than the per-step record buffer they imply)
+    c.append(dict(name="adaptive_window4", dev="bar", N=11, opts=dict(dt_init=1e-4, dt_max=1.0, adaptive=True, adaptive_window=4), kw=dict(applied_vector_potential=0.7, terminal_currents={"source": 4.0, "drain": -4.0})))
     if not quick:
         c.append(dict(name="screening", dev="ring", opts=dict(dt_init=1e-2, adaptive=False, include_screening=True, screening_tolerance=1e-2), kw=dict(applied_vector_potential=0.3)))
     return c
@@ -144,7 +146,7 @@ def eval_resume(ctx, N, screening=False):
 def run(ctx):
     N = 5 if ctx.quick else 9
     for cfg in physics(ctx.quick):
-        eval_physics(ctx, cfg, N)
+        eval_physics(ctx, cfg, cfg.get("N", N))
     eval_resume(ctx, 6 if ctx.quick else 10)
     eval_resume(ctx, 4 if ctx.quick else 7, screening=True)
     # tie to the Lean loop model (same correspondence as C05, one configuration)
